@@ -117,7 +117,7 @@ theorem plan_lines {t : T} (hf : FullOK t) {lines newH newFull} (h : t.plan = so
         obtain ⟨c, _, rfl⟩ := List.mem_map.1 hp
         right
         cases hia : t.iaLines c with
-        | none => rw [hia] at hlp; simp at hlp
+        | none => rw [hia] at hlp; simp [iaLinesOf] at hlp
         | some v =>
           obtain ⟨ls, u⟩ := v
           rw [hia] at hlp
